@@ -2,10 +2,12 @@ package c05
 
 import (
 	"crypto"
+	"crypto/dsa"
 	"crypto/ecdsa"
 	"crypto/elliptic"
 	"crypto/x509"
 	"embed"
+	"encoding/json"
 	"encoding/pem"
 	"math/big"
 	"sort"
@@ -17,10 +19,10 @@ import (
 )
 
 // Keys the shared pool does not hold: RSA moduli whose length is not a multiple of eight bits
-// (committed under testdata, generated once with crypto/rsa.GenerateKey) and an ECDSA key on a 256-bit
+// (committed under testdata, generated once with crypto/rsa.GenerateKey), a DSA key with L=2048, N=224 (FIPS 186-3 s4.2; the pool has 1024/160 and 2048/256) and an ECDSA key on a 256-bit
 // curve that is not P-256 (brainpoolP256t1, RFC 5639 s3.4; a = -3, so elliptic.CurveParams computes on it).
 
-//go:embed testdata/*.pem
+//go:embed testdata/*.pem testdata/*.json
 var extraFS embed.FS
 
 var (
@@ -51,6 +53,16 @@ func loadExtra() {
 	}
 	for _, e := range ents {
 		b, _ := extraFS.ReadFile("testdata/" + e.Name())
+		if strings.HasSuffix(e.Name(), ".json") { // DSA: {P,Q,G,Y,X} in hex, like the shared pool
+			name := strings.TrimSuffix(e.Name(), ".json")
+			var m map[string]string
+			if err := json.Unmarshal(b, &m); err != nil {
+				panic(err)
+			}
+			k := &dsa.PrivateKey{PublicKey: dsa.PublicKey{Parameters: dsa.Parameters{P: hexInt(m["P"]), Q: hexInt(m["Q"]), G: hexInt(m["G"])}, Y: hexInt(m["Y"])}, X: hexInt(m["X"])}
+			extraByName[name] = &keys.Key{Name: name, Kind: name[:strings.LastIndex(name, "-")], DSA: k, Pub: &k.PublicKey}
+			continue
+		}
 		name := strings.TrimSuffix(e.Name(), ".pem")
 		blk, _ := pem.Decode(b)
 		k, err := x509.ParsePKCS8PrivateKey(blk.Bytes)
